@@ -18,7 +18,7 @@ def state_fn(conf, hist, G, M):
 
 def run(tier, seed):
     return base.run_state_property(
-        PROP, LEVEL, state_fn, tier, seed, vacuity={'states_shared_instant': 10},
+        PROP, LEVEL, state_fn, tier, seed, pure=True, vacuity={'states_shared_instant': 10},
         sample_fn=base.default_samples,
         rule='BFS over add_* histories (U1,U2,TWO,U3), both classes, removal enabled; in every distinct state: '
              'temporal_snapshots_ids() strictly ascending and == inhabited instants of the has_interaction matrix; '
